@@ -75,7 +75,7 @@ pub fn fn_table() -> Vec<Function> {
 }
 
 /// (sheet_name index or none, abs_row, abs_col, row, col) in R1C1 terms (relative = offset)
-pub const REFS: [(i8, bool, bool, i32, i32); 10] = [
+pub const REFS: [(i8, bool, bool, i32, i32); 13] = [
     (-1, false, false, 0, 0),
     (-1, false, false, -3, 2),
     (-1, true, true, 1, 1),
@@ -86,9 +86,12 @@ pub const REFS: [(i8, bool, bool, i32, i32); 10] = [
     (2, false, false, -1, 0),
     (2, true, true, 1048576, 16384),
     (-1, true, true, 20, 30),
+    (-1, false, false, 1, 2),  // L11 seen from J10
+    (-1, true, true, 12, 12),  // $L$12
+    (-1, true, false, 11, 1),  // K$11
 ];
 /// ranges: (sheet, (abs_r1, abs_c1, r1, c1), (abs_r2, abs_c2, r2, c2))
-pub const RANGES: [(i8, (bool, bool, i32, i32), (bool, bool, i32, i32)); 7] = [
+pub const RANGES: [(i8, (bool, bool, i32, i32), (bool, bool, i32, i32)); 10] = [
     (-1, (false, false, 0, 0), (false, false, 2, 2)),
     (-1, (true, true, 1, 1), (true, true, 5, 3)),
     (1, (false, false, -2, -1), (false, false, 3, 4)),
@@ -96,6 +99,9 @@ pub const RANGES: [(i8, (bool, bool, i32, i32), (bool, bool, i32, i32)); 7] = [
     (-1, (true, true, 1, 3), (true, true, 1048576, 3)), // full column C:C
     (-1, (true, true, 4, 1), (true, true, 4, 16384)),   // full row 4:4
     (-1, (true, false, 2, -3), (false, true, 1, 16)),
+    (-1, (true, false, 10, 0), (false, false, 2, 1)),  // J$10:K12 (corners differ in row-absoluteness)
+    (-1, (false, true, 0, 10), (true, false, 12, 2)),  // $J10:L$12
+    (-1, (false, false, 0, 0), (false, false, 5, 0)),  // J10:J15 (partly outside J10:L12)
 ];
 pub const GHOST: &str = "Ghost";
 
@@ -622,7 +628,7 @@ fn array_tokens_match(arr: &[Vec<ArrayNode>], toks: &[&TokenType], _language: &L
 pub fn gen_lit(rng: &mut Rng, allow_all: bool) -> MNode {
     // weights: numbers and refs most common
     let c = if allow_all { *rng.pick(&[0u8, 0, 0, 1, 2, 3, 3, 3, 4, 4, 5, 6, 7]) } else { *rng.pick(&[0u8, 0, 1, 3]) };
-    MNode::Lit(c, rng.below(14) as u32)
+    MNode::Lit(c, rng.below(26) as u32)
 }
 
 fn gen_args(rng: &mut Rng, depth: u32) -> Vec<Option<MNode>> {
